@@ -211,28 +211,28 @@ class EvolveAppTask(BaseEvolutionTask):
 
         logger.debug('New models: %r', new_models)
 
+        # If we have any applied migration names we want to record (the ones
+        # a MoveToDjangoMigrations marks as applied), that's done once all
+        # the batches have been applied (even if no migration was left to
+        # run), so that nothing is recorded for an upgrade that fails. While
+        # the upgrade runs, the migration loader treats them as applied.
+        #
+        # The initial migrations about to be run in the pre-migration stage
+        # are only treated as applied for planning purposes. Running them is
+        # what records them.
+        marked_migrations = None
+
         if migration_executor is not None:
-            # If we have any applied migration names we wanted to record, do it
-            # before we begin any migrations. This must happen even if there
-            # are no migrations left to run.
-            #
-            # The initial migrations about to be run in the pre-migration
-            # stage are only treated as applied for planning purposes.
-            # Running them is what records them.
-            applied_migrations = \
-                state['migration_executor'].loader.extra_applied_migrations
+            marked_migrations = \
+                migration_executor.loader.extra_applied_migrations
 
             pre_migration_targets = state.get('pre_migration_targets')
 
-            if applied_migrations and pre_migration_targets:
+            if marked_migrations and pre_migration_targets:
                 pre_migrations = MigrationList()
                 pre_migrations.add_migration_targets(pre_migration_targets)
 
-                applied_migrations = applied_migrations - pre_migrations
-
-            if applied_migrations:
-                record_applied_migrations(connection=evolver.connection,
-                                          migrations=applied_migrations)
+                marked_migrations = marked_migrations - pre_migrations
 
         # Let any listeners know that we're beginning the process.
         emit_pre_migrate_or_sync(verbosity=evolver.verbosity,
@@ -301,6 +301,12 @@ class EvolveAppTask(BaseEvolutionTask):
                     '%s is not a valid type for a batch! This should never '
                     'have happened. Please file a bug or contact support.'
                     % batch_type)
+
+        if marked_migrations:
+            # Everything has been applied. The marked migrations are part of
+            # what this upgrade accomplished.
+            record_applied_migrations(connection=evolver.connection,
+                                      migrations=marked_migrations)
 
         if migrating:
             finalize_migrations(migrate_state)
